@@ -14,7 +14,7 @@ ASSUMPTIONS = ["numpy applied to one row at a time is the reference; NEP-50 prom
                "float alphabet: dyadic values and correctly-rounded ufuncs only (power / floor_divide / shifts on integers only)",
                "left_shift only with shift counts in [0, 7] (other counts are C-undefined)"]
 REQUIRED_FEATURES = ["empty_row", "zero_rows", "column_left", "column_right", "scalar_left", "must_refuse_shape",
-                     "sign_bit_column", "unary", "operator_form", "undefined_reference"]
+                     "sign_bit_column", "unary", "operator_form", "undefined_reference", "scalar_alphabet"]
 BOUNDS = {"quick": "LV(3,2) (40 shapes) x 9x9 dtype pairs x 19 binary ufuncs x {same-shape ragged, numpy scalar L/R, 0-d array L/R, "
                    "(n,1) ndarray L/R} + Python int/float/bool L/R + (n,1) list-of-lists L/R + 3 mismatching ragged operands "
                    "+ 7 unary ufuncs + 17 Python operators",
@@ -29,6 +29,9 @@ OPERATORS = {"+": operator.add, "-": operator.sub, "*": operator.mul, "/": opera
 UNARY_OPS = {"~": operator.invert, "neg": operator.neg, "pos": operator.pos, "abs": abs}
 FLOAT_EXCLUDED = {"power", "floor_divide"}
 PYSCALARS = {"pyint": 3, "pyfloat": 2.5, "pybool": True}
+# scalar alphabet: the small values that tempt a special case (0, 1, 2, -1, 1/2), each as Python and numpy scalars of several types
+SALPHA = [0, 1, 2, -1, 2.0, 0.5, 1.0, False, np.int8(2), np.int64(2), np.uint8(2), np.float32(2), np.float64(2.0), np.float32(0.5),
+          np.int64(0), np.int64(1), np.int8(-1), np.bool_(True)]
 
 
 def shards(tier):
@@ -70,6 +73,13 @@ def cases(shard, tier):
     for op in OPERATORS:
         for side in "LR":
             yield [lens, dt1, None, op, "op_pyint", side, 0]
+    if dt1 in ("bool", "int8", "int64", "uint8", "float64") or tier == "thorough":
+        for k in range(len(SALPHA)):
+            for side in "LR":
+                for u in BINARY:
+                    yield [lens, dt1, None, u, "salpha", side, k]
+                for op in ("**", "*", "+", "//", "&", "<"):
+                    yield [lens, dt1, None, op, "op_salpha", side, k]
     for bad in ("diff_same_total", "diff_total", "diff_rows"):
         for u in ("add", "less", "logical_and", "maximum"):
             yield [lens, dt1, dt1, u, bad, "R", 1]
@@ -94,6 +104,7 @@ def check(case, acc):
     rows = dsl.split_rows(flat, lens)
     ra = RaggedArray(flat.copy(), list(lens))
     is_op = kind.startswith("op_") or kind == "unary_op"
+    salpha = kind in ("salpha", "op_salpha")
     if is_op:
         acc.feature("operator_form")
         f = UNARY_OPS[u] if kind == "unary_op" else OPERATORS[u]
@@ -138,6 +149,13 @@ def check(case, acc):
             other_flat = other
             if side == "L":
                 acc.feature("scalar_left")
+        elif salpha:
+            other = SALPHA[p]
+            other_rows = [other] * n
+            other_flat = other
+            acc.feature("scalar_alphabet")
+            if side == "L":
+                acc.feature("scalar_left")
         elif kind in ("npscalar", "zerod"):
             sv = dsl.pattern(dt2, 3, 0)[1]
             if u == "left_shift" and sv.dtype.kind in "iu":
@@ -164,7 +182,10 @@ def check(case, acc):
             raise ValueError(kind)
     # ---- undefined territory
     ok2 = np.dtype(dt2).kind if dt2 else None
-    if (not is_op and u in FLOAT_EXCLUDED and ("f" in (fk, ok2) or kind == "pyfloat")) or \
+    if salpha:
+        if u in ("left_shift",) and (isinstance(other, (float, np.floating)) or other < 0 or side == "L"):
+            return acc.undefined()
+    elif (not is_op and u in FLOAT_EXCLUDED and ("f" in (fk, ok2) or kind == "pyfloat")) or \
             (is_op and u in ("**", "//") and ("f" in (fk, ok2))):
         return acc.undefined()
     if uname in ("left_shift",) and flat.dtype.kind in "iu" and side == "L" and kind != "ragged_same":
@@ -184,17 +205,22 @@ def check(case, acc):
     # reference: numpy on flat operands (for the dtype and for definedness), then row by row
     try:
         with np.errstate(all="ignore"):
-            ref_flat = f(*args(flat, other_flat))
-            ref_rows = [f(*args(rows[i], other_rows[i] if other_rows is not None else None)) for i in range(n)]
+            # ndarray.__pow__ has scalar-exponent shortcuts of its own (x ** 2 -> np.square, bool ** 2 is int8 where np.power gives
+            # int64); the property speaks of the ufunc, so the reference for the operator ** is np.power
+            g = np.power if (is_op and u == "**") else f
+            ref_flat = g(*args(flat, other_flat))
+            ref_rows = [g(*args(rows[i], other_rows[i] if other_rows is not None else None)) for i in range(n)]
     except Exception:  # noqa: BLE001  numpy refuses the reference computation
         acc.feature("undefined_reference")
         return acc.undefined()
     if not isinstance(ref_flat, np.ndarray):
         return acc.undefined()
+    if salpha and (norm(np.concatenate(ref_rows) if n else ref_flat[:0], dt=True) != norm(ref_flat, dt=True)):
+        return acc.undefined()      # numpy itself answers differently for the rows and for the flat buffer (float pow / floor_divide loops)
     exp = R(ref_rows, dtype=str(ref_flat.dtype))
     if size:
         acc.nontrivial()
-    before_other = norm(other, dt=True) if other is not None and not isinstance(other, (int, float, bool)) else None
+    before_other = norm(other, dt=True) if other is not None and not isinstance(other, (int, float, bool, np.generic)) else None
     obs = observe(lambda: f(*args(ra, other)), dt=True)
     acc.trans()
     acc.state(obs)
@@ -215,7 +241,7 @@ def check(case, acc):
 
 def _classify(case, bad):
     lens, dt1, dt2, u, kind, side, p = case
-    if kind in PYSCALARS or kind == "op_pyint":
+    if kind in PYSCALARS or kind == "op_pyint" or (kind in ("salpha", "op_salpha") and not isinstance(SALPHA[p], np.generic)):
         return "c04.python-scalar-operand-promoted-to-64-bit"
     if kind == "npscalar" and dt2 == "bool" and bad == "valid-operands-refused":
         return "c04.numpy-bool-scalar-refused"
